@@ -48,6 +48,8 @@ HARMLESS = [
     ("renamed-error-message", S, '"invalid indentation in flow construct"', '"bad indentation inside a flow construct"', ["C01", "C02", "C06", "C10", "C14"]),
     ("buffered-capacity-32", "parser/src/input/buffered.rs", "const BUFFER_LEN: usize = 16;", "const BUFFER_LEN: usize = 32;", ["C01", "C10", "C05"]),
     ("string-capacity-64", S, "let mut string = String::with_capacity(32);", "let mut string = String::with_capacity(64);", ["C04", "C10"]),
+    ("error-display-other-wording", S, '"{} at byte {} line {} column {}",\n            self.info,\n            self.mark.index,\n            self.mark.line,\n            self.mark.col + 1,', '"{} at {}:{} (byte {})",\n            self.info,\n            self.mark.line,\n            self.mark.col + 1,\n            self.mark.index,', ["C12", "C10", "C14"]),
+    ("nesting-limit-512", P, "const MAX_NESTING_LEVEL: usize = 1000;", "const MAX_NESTING_LEVEL: usize = 512;", ["C11", "C17", "C15", "C01"]),
     ("decode-growth-bigger", "saphyr/src/encoding.rs", "output.reserve((input.len() / 10).max(MIN_DECODER_OUTPUT_SPACE));", "output.reserve((input.len() / 4).max(64));", ["C18"]),
 ]
 
